@@ -46,12 +46,31 @@ RelationalOps == {"ShuffleSequences", "Sample", "SampleSeqBag", "CleanNames", "T
                   "ShuffleSites", "Swap", "SimulateRogue", "BuildBootstrap", "RandSubAlign", "Mutate",
                   "AddGaps", "Recombine", "Rarefy", "TranslateByReference", "CodonAlign"}
 \* operations that never change any existing object (queries and copy-producing operations, C19)
-ReadOnlyOps == {"Clone", "CloneSeqBag", "Unalign", "Sample", "SampleSeqBag", "SubAlign", "SelectSites",
+ReadOnlyOps == {"Clone", "CloneSeqBag", "Unalign", "Sample", "SampleSeqBag", "SubAlign", "Extract", "SelectSites",
                 "InverseCoordinates", "InversePositions", "RefCoordinates", "RefSites", "Split", "Transpose",
                 "MaxCharStats", "Consensus", "CharStats", "CharStatsSite", "CharStatsSeq", "UniqueCharacters",
                 "Entropy", "NbVariableSites", "InformativeSites", "AvgAllelesPerSite", "Pssm", "CountDifferences",
                 "NumGapsUnique", "NumMutationsUnique", "NumMutRef", "ListMutRef", "CountProfile", "ProfileOnly", "SiteConservation", "AlphabetInfo",
                 "BuildBootstrap", "RandSubAlign", "Rarefy", "DetectAlphabet", "Identical", "Query", "New", "NewFromFasta", "CodonAlign", "LongestORFObj"}
+
+\* `goalign extract`: one named region made of blocks [s, e) - in any order, possibly overlapping - taken in the order
+\* given and glued side by side, on the minus strand when asked (reverse complement of the glued region), translated
+\* when asked (nucleotides only): a composition of SubAlign, Concat, ReverseComplement and Translate.  With a reference
+\* row the blocks are coordinates on its residues (RefCoordinates first).
+ExtractOp(o, a) ==
+  LET B == a.blocks
+      badBlock == \E k \in 1..Len(B) : B[k].s < 0 \/ B[k].e > o.len \/ B[k].s >= B[k].e
+      win(k) == IF a.ref = <<>> THEN Res(FALSE, o, <<>>, [start |-> B[k].s, len |-> B[k].e - B[k].s], TRUE)
+                ELSE RefCoordinatesOp(o, a.ref, B[k].s, B[k].e - B[k].s)
+      badRef == \E k \in 1..Len(B) : win(k).err
+      part(k) == SubAlignOp(o, win(k).ret.start, win(k).ret.len).new[1]
+      glued == FoldLeft(LAMBDA acc, k : ConcatOp(acc, part(k)).o, part(1), [k \in 1..(Len(B) - 1) |-> k + 1])
+      rc == IF a.minus THEN RevCompOp(glued) ELSE Ok(glued)
+      tr == IF rc.err THEN rc ELSE IF o.al = NUCLEOTIDS /\ a.code >= 0 THEN TranslateOp(rc.o, 0, a.code) ELSE rc
+  IN IF ~IsAlign(o) \/ Len(B) = 0 \/ badBlock THEN Fail(o)
+     ELSE IF badRef THEN Fail(o)
+     ELSE IF tr.err THEN Res(TRUE, o, <<>>, NoRet, tr.j)
+     ELSE Res(FALSE, o, <<tr.o>>, NoRet, tr.j)
 
 Ret(r) == Res(FALSE, r.o, <<>>, r.ret, TRUE)
 Q(o, ret) == Res(FALSE, o, <<>>, ret, TRUE)            \* a query: receiver unchanged, returns ret
@@ -93,6 +112,7 @@ Step(h, op, recv, a) ==
     [] op = "ReverseComplement" -> RevCompOp(o)
     [] op = "ReverseComplementSequences" -> RevCompNamesOp(o, a.names)
     [] op = "SubAlign" -> SubAlignOp(o, a.start, a.len)
+    [] op = "Extract" -> ExtractOp(o, a)
     [] op = "SelectSites" -> SelectSitesOp(o, a.sites)
     [] op = "InverseCoordinates" -> InverseCoordinatesOp(o, a.start, a.len)
     [] op = "InversePositions" -> InversePositionsOp(o, a.sites)
@@ -242,11 +262,11 @@ CliOps == {"RemoveGapSites", "RemoveCharacterSites", "RemoveMajorityCharacterSit
            "ShuffleSequences", "Swap", "Recombine", "Mutate", "AddGaps", "Sample", "SampleSeqBag", "RandSubAlign",
            "Rename", "RenameRegexp", "CleanNames", "TrimNames", "TrimNamesAuto", "AppendSeqIdentifier", "TrimSequences",
            "Unalign", "Transpose", "RefCoordinates", "Split", "SelectSites", "RefSites", "InversePositions", "CodonAlign", "InverseCoordinates",
-           "Concat", "Append", "ToUpper", "ToLower", "ShuffleSites", "SimulateRogue", "BuildBootstrap"} \cup CliQueryOps
+           "Concat", "Append", "ToUpper", "ToLower", "ShuffleSites", "SimulateRogue", "BuildBootstrap", "Extract"} \cup CliQueryOps
 \* relations that need the part of the return record the command writes to a side file
 CliNeedsRet == {"Compress", "CleanNames", "TrimNames", "TrimNamesAuto", "ShuffleSites", "SimulateRogue"}
 
-CliCreators == {"Consensus", "SubAlign", "Sample", "SampleSeqBag", "RandSubAlign", "Unalign", "Transpose", "CodonAlign", "BuildBootstrap"}      \* the command prints the object the operation creates, not the receiver
+CliCreators == {"Consensus", "SubAlign", "Sample", "SampleSeqBag", "RandSubAlign", "Unalign", "Transpose", "CodonAlign", "BuildBootstrap", "Extract"}      \* the command prints the object the operation creates, not the receiver
 
 \* the clauses of the properties that a return value meets only in case-folded form
 FoldedOK(op, a, exp, obs) ==
